@@ -116,6 +116,20 @@ CLAIMS = {
              "outside the property's alphabet; the table itself has no direction.",
         technique="Coq proof (complete kernel enumeration of the step relation + induction over histories) + translator + exhaustive graph correspondence",
         design="4/C03"),
+    "C18": dict(
+        text="Coq theorems (axiom-free) about the model of SerialHdlcTransport: a request that fits the maximum "
+             "information size is written as one unsegmented information frame carrying LLC||APDU with the link's "
+             "current numbers; for EVERY segmentation of the meter's answer (induction over the segment list) the "
+             "collection loop returns the concatenation of the payloads in order, stops exactly at the unsegmented "
+             "final frame, sends one receive-ready frame per segmented frame that hands over the turn, and send() returns "
+             "the answer without the LLC response header. The byte level below (frames out of an arbitrarily chunked "
+             "stream, counters modulo 8) is C10/C11. Whole sessions (connect, up to 12 exchanges with wrapping numbers, "
+             "disconnect, answers to 5000 bytes in 1..40 segments, read granularity down to single bytes) run as the same "
+             "script on the model and on the real transport over a scripted serial port.",
+        note="Partial: the end-to-end statement over the serial script is checked by correspondence, the proved part is the "
+             "loop logic over delivered frames. Known finding F18 (requests longer than one information field).",
+        technique="Coq proof (induction over segmentations) + scripted-session correspondence on the real transport",
+        design="4/C18"),
     "C15": dict(
         text="Coq theorems (axiom-free) for buffers of any number of rows and columns, any null pattern, clock columns "
              "anywhere: one row per entry, one cell per capture object, every cell bound to the index of its own column "
